@@ -25,7 +25,7 @@
 
 enum ExitClass { XC_OK = 0, XC_ILLCOND = 1, XC_SINGULAR = 2, XC_NOSPACE = 3, XC_QUERY = 4, XC_ARGERR = 5, XC_ABORT = 6, XC_HANG = 7, XC_NONE = 8, XC_BREAKDOWN = 9 };
 static const char *const kExitName[] = {"ok", "illcond", "singular", "nospace", "query", "argerror", "abort", "hang", "none", "ilu-breakdown"};
-extern char g_cur_op_kind[32];
+extern __thread char g_cur_op_kind[32];
 
 struct ExecCfg {
     bool chk_structure = true, chk_identity = true, chk_residual = true;
